@@ -52,6 +52,31 @@ for d in sorted(glob.glob(os.path.join(ROOT, "seeded", "C*-*"))):
     else:
         res, first = "not evaluated yet", ""
     out.append(f"| {sid} | {summ} | {need} | {res} | `{first}` |")
+out.append("")
+out.append("### V.4 Independently written HARMLESS refactorings (`refactored/<id>/`): false-alarm test\n")
+out.append("Behaviour-preserving maintenance changes (renaming, hoisting, helper extraction, equivalent numpy calls, loop <-> vectorised "
+           "form, guard style) written by sub-agents that saw only the property text and a scratch worktree; each comes with a demonstration "
+           "that passes with and without it.  `tools/eval_refactor.sh` applies the patch to a scratch copy and runs the quick check: the "
+           "expected outcome is exit 0; a VIOLATION line would be a false alarm; exit 2 means the proof did not go through on the new text "
+           "(engine limit) and no failing input exists.\n")
+out.append("| id | what was refactored | check result |")
+out.append("|---|---|---|")
+nref = nok = nfa = 0
+for d in sorted(glob.glob(os.path.join(ROOT, "refactored", "C*-r*"))):
+    rid = os.path.basename(d)
+    try:
+        meta = json.load(open(os.path.join(d, "meta.json")))
+        oc = json.load(open(os.path.join(d, "outcome.json")))
+    except Exception:
+        continue
+    nref += 1
+    nok += 1 if oc.get("exit") == 0 else 0
+    nfa += 1 if oc.get("false_alarm") else 0
+    summ = re.sub(r"\s+", " ", str(meta.get("summary", "")))[:300]
+    res = f"exit {oc['exit']}, {oc['violation_lines']} VIOLATION lines, {oc['undecided_lines']} UNDECIDED lines, {oc['wall_s']} s"
+    out.append(f"| {rid} | {summ} | {res} |")
+out.append("")
+out.append(f"{nref} refactorings: {nok} verified (exit 0), {nfa} false alarms, {nref - nok - nfa} undecided (exit 2).")
 text = "\n".join(out) + "\n"
 p = os.path.join(ROOT, "DESIGN.md")
 s = open(p).read()
